@@ -165,7 +165,7 @@ func liveSet(sn *pfcp.VerifSnap) map[uint64]*pfcp.VerifSess {
 // Analyze runs all PFCP-level oracles (C01 C04 C05 C08 C11 C12) over a trace.
 func Analyze(tr *Trace) *Analyzer {
 	a := &Analyzer{tr: tr, nodes: map[int]*mNode{}, sess: map[int]*mSess{}, byUP: map[uint64]*mSess{}}
-	a.NoFaults = len(tr.Faults) == 0
+	a.NoFaults = len(tr.Faults) == 0 && !tr.NoRemRep
 	upfAddr := tr.UPFIP + ":8805"
 	for _, st := range tr.Steps {
 		if !st.Sent || st.Post == nil {
@@ -732,7 +732,8 @@ func (a *Analyzer) c11c12(st *Step, s *mSess, deletion bool) {
 	for _, r := range op.Create {
 		if r.Kind == "PDR" {
 			if _, ex := s.pdrURR[r.ID]; ex {
-				ambiguous = true // duplicate PDR create: outside C12's histories
+				ambiguous = true      // duplicate PDR create: outside C12's histories
+				s.pdrAmb[r.ID] = true // which of the two lists the UPF kept depends on which create the data plane refused
 			}
 			s.pdrURR[r.ID] = append([]uint32{}, r.URRs...)
 		}
